@@ -208,6 +208,13 @@ type TDictNested struct {
 	LP  []*string `parquet:",list,dict" parquet-element:",optional"`
 	K   string    `parquet:",dict"`
 }
+type TDictFixed struct {
+	U  [16]byte `parquet:",uuid,dict"`
+	A4 [4]byte  `parquet:",dict"`
+	S  string   `parquet:",dict"`
+	I  int64    `parquet:",dict"`
+	OU [16]byte `parquet:",uuid,dict,optional"`
+}
 type tOptInner struct {
 	X int32
 	Y string
@@ -372,7 +379,7 @@ var rowTypes = []*RT{
 	mkRT[TNested]("Nested"), mkRT[TSliceOfStruct]("SliceOfStruct"), mkRT[TListOfStruct]("ListOfStruct"),
 	mkRT[TListOfList]("ListOfList"), mkRT[TMap]("Map"), mkRT[TMapOfStruct]("MapOfStruct"),
 	mkRT[TMapOfSlice]("MapOfSlice"), mkRT[TEmbedded]("Embedded"), mkRT[TDeep]("Deep"), mkRT[TBoolRuns]("BoolRuns"),
-	mkRT[TStrings]("Strings"), mkRT[TFloatsOnly]("FloatsOnly"), mkRT[TPtrStructList]("PtrStructList"), mkRT[TDictNested]("DictNested"), mkRT[TOptStruct]("OptStruct"), mkRT[TEmbeddedMid]("EmbeddedMid"),
+	mkRT[TStrings]("Strings"), mkRT[TFloatsOnly]("FloatsOnly"), mkRT[TPtrStructList]("PtrStructList"), mkRT[TDictNested]("DictNested"), mkRT[TOptStruct]("OptStruct"), mkRT[TEmbeddedMid]("EmbeddedMid"), mkRT[TDictFixed]("DictFixed"),
 }
 
 // ---------------------------------------------------------------------------
@@ -741,6 +748,19 @@ func varyRow(row any, i int) any {
 			fv.SetString(fmt.Sprintf("%x", next()))
 		case reflect.Bool:
 			fv.SetBool(next()&1 == 1)
+		case reflect.Array:
+			if fv.Type().Elem().Kind() == reflect.Uint8 {
+				for k := 0; k < fv.Len(); k++ {
+					if k%8 == 0 {
+						next()
+					}
+					fv.Index(k).SetUint(uint64(byte(h >> (8 * (uint(k) % 8)))))
+				}
+			}
+		case reflect.Slice:
+			if fv.Type().Elem().Kind() == reflect.Uint8 {
+				fv.SetBytes([]byte(fmt.Sprintf("%x", next())))
+			}
 		}
 	}
 	return v.Interface()
